@@ -1532,3 +1532,21 @@ def _comparison_chain(repo, ob, failure):
 
 GENERATORS.insert(0, ("C14.cmp.", _comparison_chain))
 GENERATORS.insert(0, ("loop1.ensures.25deed", _comparison_chain))
+
+
+def _polyline_position_pending(repo, ob, failure):
+    """a polyline / polygon / path positioned by x / y (moved by a transform) is unresolved until that is done: same output in every order"""
+    import re as _re
+    sib = ['<polyline id="p" points="0 0 10 10" x="#z~x2" y="20"/>', '<rect id="a" xy="#p|h" wh="5"/>', '<rect id="z" wh="30"/>']
+    outs = {}
+    for order in ((0, 1, 2), (2, 0, 1)):
+        doc = "<svg>" + "".join(sib[i] for i in order) + "</svg>"
+        r = run_svgdx(repo, doc, args=("--no-auto-styles",))
+        m = _re.search(r'<rect id="a"[^>]*>', r["out"])
+        outs[order] = (doc, m.group(0) if (r["rc"] == 0 and m) else r["err"].strip()[-120:])
+    if outs[(0, 1, 2)][1] != outs[(2, 0, 1)][1]:
+        return {"input": outs[(0, 1, 2)][0], "args": ["--no-auto-styles"], "observed": outs[(0, 1, 2)][1], "expected": "as with #z first: %s" % outs[(2, 0, 1)][1]}
+    return None
+
+
+GENERATORS.insert(0, ("C10.pending.foreign", _polyline_position_pending))
